@@ -37,4 +37,8 @@ class Ref(Expression):
         out += (STATUS, RESULT, POS) << Yield((CALL, func, POS))
 
     def argumentize(self, out, flags):
+        # (A rule that is passed as an argument is looked up in the context,
+        # like any other reference, so that a subgrammar can override it.)
+        if flags.uses_context and not self.is_local and not self.is_super:
+            return Code(f'_ctx.{self.resolved}')
         return Code(self.resolved)
